@@ -71,7 +71,7 @@ func (s podShape) String() string {
 
 // c16Selectors: how the two sets in the lister select. The labels a pod shape carries (app=web, tier=db, both,
 // unrelated, none) meet every operator both ways.
-var c16Selectors = []string{"disjoint", "overlapping", "expressions In/Exists", "expressions DoesNotExist/NotIn"}
+var c16Selectors = []string{"disjoint", "overlapping", "expressions In/Exists", "expressions DoesNotExist/NotIn", "disjoint, next to a set with an unusable selector"}
 
 func c16Sets(overlap string) (*asv1.StatefulSet, *asv1.StatefulSet) {
 	a := gen.Spec{Name: "web", Replicas: 1, Policy: "Parallel", Strategy: gen.RU(0), Limit: 10, Template: 1}.Build()
@@ -288,7 +288,7 @@ func setStr(m map[string]bool) string {
 func init() {
 	register("c16", "no lost wake-ups: event handlers and worker requeue discipline", func([]string) int {
 		rep := explore.NewReport("C16", "model_checking")
-		rep.Rule = "exhaustive event shapes on the real handlers registered by the real constructor: sets web and db in the lister with selectors {app=web | tier=db; both app=web; app In (web,web2) | tier Exists; app=web and tier DoesNotExist | app NotIn (web)}; pod shapes = owner{none, web right UID, web right UID under the older API version v1alpha1, web stale UID, ReplicaSet named web, non-controller ref, db, unknown set, plain ref to db followed by the controller ref to web} x labels{web, db, both, unrelated, nil} x terminating; events (each delivered once with a clean rate limiter and once while failures of the key are on record) = add(shape), update(old shape x new shape x same/different resourceVersion), delete(object), delete(tombstone with pod), delete(tombstone with junk), delete(junk); set add / delete / tombstone and update by every kind of edit and its undo (pause annotation, delete-slots, other annotation, label, replicas, template, status, deletion timestamp, finalizer, owner reference); worker = every success/failure sequence of length <=4 and every run of 5..40 consecutive failures followed by a success (failure = InternalError on the first API call; the recording queue counts requeues like a real rate limiter); and a worker step with an InternalError or a lost response at every call position of the reconcile of every state of a seed set (C09's seeds, a shallow population grid, owned pods next to orphans and pods to release): when the work is left undone the key is put back with backoff. Oracle: required subset of enqueued subset of allowed keys by a reference function written from the property; failure => AddRateLimited and no Forget, success => Forget, Done always. Non-trivial = the reference requires or allows at least one key."
+		rep.Rule = "exhaustive event shapes on the real handlers registered by the real constructor: sets web and db in the lister with selectors {app=web | tier=db; both app=web; app In (web,web2) | tier Exists; app=web and tier DoesNotExist | app NotIn (web); the first again next to a third set whose selector cannot be parsed}; pod shapes = owner{none, web right UID, web right UID under the older API version v1alpha1, web stale UID, ReplicaSet named web, non-controller ref, db, unknown set, plain ref to db followed by the controller ref to web} x labels{web, db, both, unrelated, nil} x terminating; events (each delivered once with a clean rate limiter and once while failures of the key are on record) = add(shape), update(old shape x new shape x same/different resourceVersion), delete(object), delete(tombstone with pod), delete(tombstone with junk), delete(junk); set add / delete / tombstone and update by every kind of edit and its undo (pause annotation, delete-slots, other annotation, label, replicas, template, status, deletion timestamp, finalizer, owner reference); worker = every success/failure sequence of length <=4 and every run of 5..40 consecutive failures followed by a success (failure = InternalError on the first API call; the recording queue counts requeues like a real rate limiter); and a worker step with an InternalError or a lost response at every call position of the reconcile of every state of a seed set (C09's seeds, a shallow population grid, owned pods next to orphans and pods to release): when the work is left undone the key is put back with backoff. Oracle: required subset of enqueued subset of allowed keys by a reference function written from the property; failure => AddRateLimited and no Forget, success => Forget, Done always. Non-trivial = the reference requires or allows at least one key."
 		rep.Assumptions = []string{"selectors in the lister are valid ones", "orphan update without label/owner change and orphan delete are don't-care (property does not fix them)"}
 		var owners = []string{"none", "A", "Aoldversion", "Astale", "Akind", "Anonctrl", "B", "C", "BrefThenA"}
 		var labs = []string{"A", "B", "both", "none", "nil"}
@@ -307,6 +307,13 @@ func init() {
 			sets := []*asv1.StatefulSet{a, b}
 			st := world.NewState()
 			st.API.Sets[a.Name], st.API.Sets[b.Name] = a, b
+			if strings.Contains(overlap, "unusable selector") {
+				// a third set whose selector cannot be parsed (the CRD admits it): it matches nothing and must not stand in
+				// the way of the others
+				bad := gen.Spec{Name: "broken", Replicas: 1, Policy: "Parallel", Strategy: gen.RU(0), Limit: 10, Template: 1}.Build()
+				bad.Spec.Selector = &metav1.LabelSelector{MatchExpressions: []metav1.LabelSelectorRequirement{{Key: "app", Operator: "Bogus", Values: []string{"web"}}}}
+				st.API.Sets[bad.Name] = bad
+			}
 			st.SyncCaches()
 			w.Load(st)
 			if len(w.PodHandlers) != 1 || len(w.SetHandlers) != 1 {
